@@ -39,6 +39,7 @@ func init() {
 		UnknownNames: true,
 		BadNM:        true,
 		BadSplit:     true,
+		BigSets:      12,
 		StopSetters:  1,
 		DupDAG:       true,
 	}
